@@ -1,5 +1,6 @@
 /- Proofs/C06Status.lean — lemmas about the status-file regexes of C06. -/
 import PsutilModel.Proofs.C06
+import PsutilModel.Proofs.C06Sep
 namespace Psutil.C06
 open Spec
 
@@ -251,8 +252,8 @@ theorem readStatus_good (c : Cfg) (hg : c.Good) (f : Bytes) : readStatus c f = f
 
 theorem ids3_of_head (anch : Bool) (key data : Bytes) (a b c : Nat) (tl : List (List Bytes))
     (h : findAll anch key 3 data = [renderDec a, renderDec b, renderDec c] :: tl) :
-    ids3 anch key data = .ok (a, b, c) := by
-  simp [ids3, h, decOf_renderDec, bind, Except.bind, pure, Except.pure]
+    ids3 anch key Sep.tabOne data = .ok (a, b, c) := by
+  simp [ids3, findAllS_tabOne, h, decOf_renderDec, bind, Except.bind, pure, Except.pure]
 
 theorem other_lines (r : StatusRec) (hwf : r.WF) :
     (∀ kv ∈ r.pre, OtherLine kv) ∧ (∀ kv ∈ r.mid1, OtherLine kv) ∧ (∀ kv ∈ r.mid2, OtherLine kv) :=
@@ -262,7 +263,7 @@ theorem uids_extract (c : Cfg) (hg : c.Good) (r : StatusRec) (hwf : r.WF) :
     uids c (renderStatus r) = .ok (Spec.uids r) := by
   obtain ⟨hpre, _, _⟩ := other_lines r hwf
   unfold uids
-  rw [readStatus_good c hg, hg.uidAnchored, hg.uidKey]
+  rw [readStatus_good c hg, hg.uidAnchored, hg.uidKey, hg.uidSep]
   have hshape : renderStatus r = renderLines ((keyName, escName r.comm) :: r.pre)
       ++ (statusLine (keyUid, (idLine keyUid r.uid).2)
         ++ renderLines ([idLine keyGid r.gid] ++ r.mid1 ++ [(keyThreads, renderDec r.threads)] ++ r.mid2
@@ -286,7 +287,7 @@ theorem gids_extract (c : Cfg) (hg : c.Good) (r : StatusRec) (hwf : r.WF) :
     gids c (renderStatus r) = .ok (Spec.gids r) := by
   obtain ⟨hpre, _, _⟩ := other_lines r hwf
   unfold gids
-  rw [readStatus_good c hg, hg.gidAnchored, hg.gidKey]
+  rw [readStatus_good c hg, hg.gidAnchored, hg.gidKey, hg.gidSep]
   have hshape : renderStatus r = renderLines ((keyName, escName r.comm) :: r.pre ++ [idLine keyUid r.uid])
       ++ (statusLine (keyGid, (idLine keyGid r.gid).2)
         ++ renderLines (r.mid1 ++ [(keyThreads, renderDec r.threads)] ++ r.mid2
@@ -314,7 +315,7 @@ theorem numThreads_extract (c : Cfg) (hg : c.Good) (r : StatusRec) (hwf : r.WF) 
     numThreads c (renderStatus r) = .ok (Spec.numThreads r) := by
   obtain ⟨hpre, hmid1, _⟩ := other_lines r hwf
   unfold numThreads
-  rw [readStatus_good c hg, hg.thrAnchored, hg.thrKey]
+  rw [readStatus_good c hg, hg.thrAnchored, hg.thrKey, hg.thrSep, findAllS_tabOne]
   have hshape : renderStatus r
       = renderLines ((keyName, escName r.comm) :: r.pre ++ [idLine keyUid r.uid, idLine keyGid r.gid] ++ r.mid1)
       ++ (statusLine (keyThreads, renderDec r.threads)
